@@ -5,7 +5,7 @@ from fractions import Fraction as Fr
 CLAIM = {
  'text': ('Lean 4 theorems about a model of the frame-array writers of LAS/core/WriteLAS.py, for all channel lists, '
           'requested sets, widths, decimals and rational values: same_channels (curve section = ~A heading = every data '
-          'row = channel 0 + requested-and-present, specSel_mem_iff), fields_separated / heading_fields_separated (a row '
+          'row = channel 0 + requested-and-present, same_channels_separate for the writers called one by one, specSel_mem_iff), fields_separated / heading_fields_separated (a row '
           'tokenises on blanks into exactly its value texts whatever the width), print_error (|printed - v| <= 1/2 10^-d, '
           'round-half-even) and print_int_exact, rows_count, data_row_tokens, reduce_mem. The model is tied to the source '
           'on every run by a correspondence (channel lists, heading line, every data row, tokenising, reductions, the '
@@ -24,7 +24,8 @@ RULE = ('random frame arrays: 1..6 channels (distinct str identities, some wider
         'float32/float64/(u)int8..64, dimensions of rank 1..3, values: ordinary, 1e-12..1e18 magnitudes, +-0.0, exact '
         'halves at the last printed decimal and their neighbours, -999.25 (the NULL value), type minima/maxima and '
         'integers beyond 2**53; every reduction, width 1..24, .0f...9f, subset kinds empty/all/some/some+absent/x only/'
-        'absent only. A case is non-trivial when it has >= 2 channels written and >= 2 frames; distinct by '
+        'absent only; written through write_curve_and_array_section_to_las, or through the three writers called one by one '
+        'with separate copies of the set, or curve section + write_array_section_to_las. A case is non-trivial when it has >= 2 channels written and >= 2 frames; distinct by '
         '(dtypes, shapes, reduction, subset kind, width, decimals, first row text).')
 
 ASSUMPTIONS = [
@@ -171,7 +172,8 @@ def gen_case(rng):
     else: sub = absent[:rng.randint(1, len(absent))]
     if kind == 'some' and not sub:
         kind = 'empty'
-    return {'chans': chans, 'n_frames': nfr, 'red': red, 'subset': sub, 'kind': kind, 'width': width, 'dec': d}
+    mode = rng.choice(['combined', 'combined', 'separate', 'curve+array'])
+    return {'chans': chans, 'n_frames': nfr, 'red': red, 'subset': sub, 'kind': kind, 'width': width, 'dec': d, 'mode': mode}
 
 
 # ----------------------------------------------------------------------------- implementation side
@@ -201,8 +203,22 @@ def write(case):
     from TotalDepth.LAS.core import WriteLAS
     fa = build(case)
     out = io.StringIO()
-    WriteLAS.write_curve_and_array_section_to_las(fa, case['n_frames'], case['red'], Slice.Slice(), set(case['subset']),
-                                                  case['width'], '.%df' % case['dec'], out)
+    fmt = '.%df' % case['dec']
+    mode = case.get('mode', 'combined')
+    if mode == 'combined':
+        WriteLAS.write_curve_and_array_section_to_las(fa, case['n_frames'], case['red'], Slice.Slice(), set(case['subset']),
+                                                      case['width'], fmt, out)
+    elif mode == 'separate':
+        # the incremental use described in write_array_section_data_to_las, every call with its own copy of the set
+        WriteLAS.write_curve_section_to_las(fa, set(case['subset']), out)
+        WriteLAS.write_array_section_header_to_las(fa, case['n_frames'], case['red'], Slice.Slice(), set(case['subset']),
+                                                   case['width'], out)
+        WriteLAS.write_array_section_data_to_las(fa, case['red'], set(case['subset']), case['width'], fmt, out)
+    else:
+        # curve section, then header + data sharing one set
+        WriteLAS.write_curve_section_to_las(fa, set(case['subset']), out)
+        WriteLAS.write_array_section_to_las(fa, case['n_frames'], case['red'], Slice.Slice(), set(case['subset']),
+                                            case['width'], fmt, out)
     return fa, out.getvalue()
 
 
@@ -356,7 +372,7 @@ def evaluate(ctx, case, want_corr=False):
                     ctx.fail(case, f'frame {f} channel {names[c]}: read back {rb!r}, source {src}'); return None
                 ctx.count('values_read_back')
     if len(exp) >= 2 and case['n_frames'] >= 2:
-        ctx.nontriv((tuple((ch['dtype'], tuple(ch['shape'])) for ch in case['chans']), red, case['kind'], W, D, rows[0]))
+        ctx.nontriv((tuple((ch['dtype'], tuple(ch['shape'])) for ch in case['chans']), red, case['kind'], case.get('mode'), W, D, rows[0]))
     return {'text': text, 'exp': exp, 'head_line': head_line, 'rows': rows, 'npvals': npvals, 'curve': cnames, 'head': head}
 
 
@@ -434,7 +450,7 @@ def correspond(ctx, cases, results):
             ctx.corr('split', {'line': res['rows'][extra]}, res['rows'][extra].split(), model); pos += 1
     # 3. reductions: model (exact) vs numpy
     req, meta = [], []
-    for i in idx[:ctx.n(600, 6000)]:
+    for i in idx[:300]:
         case, res = cases[i], results[i]
         fa = build(case)
         for c in res['exp']:
@@ -514,28 +530,30 @@ def run_known(ctx, case):
 
 def run(ctx):
     rng = ctx.rng
-    cases = [gen_case(rng) for _ in range(ctx.n(2500, 40000))]
-    results = []
-    for case in cases:
-        results.append(evaluate(ctx, case))
-    for case, res in list(zip(cases, results))[:4]:
-        if res is not None:
-            ctx.sample({'idents': [c['ident'] for c in case['chans']], 'dtypes': [c['dtype'] for c in case['chans']],
-                        'shapes': [c['shape'] for c in case['chans']], 'subset': case['subset'], 'reduction': case['red'],
-                        'width': case['width'], 'decimals': case['dec'], 'heading': res['head_line'], 'first_row': res['rows'][0]})
+    total, chunk = ctx.n(12000, 200000), 4000
+    have_model = getattr(ctx, 'model_available', True)
+    for start in range(0, total, chunk):
+        cases = [gen_case(rng) for _ in range(min(chunk, total - start))]
+        results = [evaluate(ctx, case) for case in cases]
+        for case, res in list(zip(cases, results))[5:7]:
+            if res is not None:
+                ctx.sample({'idents': [c['ident'] for c in case['chans']], 'dtypes': [c['dtype'] for c in case['chans']],
+                            'shapes': [c['shape'] for c in case['chans']], 'subset': case['subset'], 'reduction': case['red'],
+                            'width': case['width'], 'decimals': case['dec'], 'heading': res['head_line'], 'first_row': res['rows'][0]})
+        if have_model:
+            correspond(ctx, cases, results)
+        ctx.count('cases', len(cases))
     known_name_cases(ctx)
-    if getattr(ctx, 'model_available', True):
-        correspond(ctx, cases, results)
+    if have_model:
         probe_format(ctx)
     else:
         ctx.note('model driver not available: correspondence skipped')
-    ctx.count('cases', len(cases))
     ctx.note('excluded: NaN/inf values; identities read as numbers/yes/no by the reader are run separately as finding F-C10-1; '
              'int/bytes identities (API only) are described in notes/C10.md')
 
 
 def replay(ctx, rec):
-    case = rec['case']
+    case = rec.get('case') or {}
     if 'chans' not in case:
         return True, 'nothing to replay (no concrete failing input was recorded)'
     n0 = len(ctx.failures)
